@@ -214,6 +214,39 @@ func checkC11(c *an.Ctx) {
 			c.Check(good, "C11.1", an.Short(r.run)+":CompileTask("+w.param+")", r.compileCall.Pos(), "the jobs' "+w.param+" is taskOutput."+w.method+"()", "the jobs' "+w.param+" is not the task output's "+w.method+"() tee: "+an.Prov(arg))
 		}
 	}
+	// the executor that runs the task's commands takes its writers from the job the walk starts with: that job
+	// must be the one CompileTask returned (compiled with the tee), not a job compiled with other writers
+	// put in front of it
+	if r.execute != nil && r.compileCall != nil {
+		nSites := 0
+		for _, site := range p.CallSitesOf(r.execute) {
+			if !inPkgs("pkg/runner")(site.Parent()) {
+				continue
+			}
+			for i, prm := range r.execute.Params {
+				if !an.TypeIs(prm.Type(), "pkg/executor", "Job") || i >= len(site.Common().Args) {
+					continue
+				}
+				nSites++
+				stop := func(v ssa.Value) bool {
+					e, ok := v.(*ssa.Extract)
+					return ok && e.Tuple == ssa.Value(r.compileCall)
+				}
+				good, why := true, ""
+				srcs := p.DeepSourcesStop(site.Common().Args[i], 3, true, stop)
+				for _, src := range srcs {
+					if e, ok := src.(*ssa.Extract); ok && e.Tuple == ssa.Value(r.compileCall) && e.Index == 0 {
+						continue
+					}
+					good, why = false, an.FieldProv(src)
+				}
+				c.Check(good && len(srcs) > 0, "C11.1", an.Short(site.Parent())+":walk-starts-at(CompileTask)", site.Pos(), "the job walk starts at the job CompileTask compiled with the tee writers", "the job walk can start at a job that is not CompileTask's result ("+why+"): the executor takes its output writer from the first job, so the task's output bypasses the capture")
+			}
+		}
+		if nSites == 0 {
+			c.Und("C11.1", an.Short(r.execute)+":callers", r.execute.Pos(), "no call of the job walk with a job argument found")
+		}
+	}
 	// writers must not touch the caller's buffer
 	nW := 0
 	for _, fn := range p.Funcs {
